@@ -315,7 +315,8 @@ def scheduler_ctx(name):
     raise ValueError(name)
 
 
-def run_compute(spec, seed, scheduler="sync", write_stages=True, fault=None, out_dir=None, sink=None, keep_table=False):
+def run_compute(spec, seed, scheduler="sync", write_stages=True, fault=None, out_dir=None, sink=None, keep_table=False,
+                out_name="out.fits"):
     """One compute() run -> (events, final_table or None).  fault: None | ("boundary", k, "raise"|"exit") |
     ("stage", name)."""
     use_repo()
@@ -328,7 +329,7 @@ def run_compute(spec, seed, scheduler="sync", write_stages=True, fault=None, out
     toks = Tokens()
     own = out_dir is None
     out_dir = out_dir or tempfile.mkdtemp(prefix="nsv-run-")
-    out = os.path.join(out_dir, "out.fits")
+    out = os.path.join(out_dir, out_name)
     if os.path.exists(out):
         os.remove(out)
     events = []
